@@ -8,6 +8,7 @@
    blockSize, header bytes, nonce length, GCM overhead.  c_write/c_read/c_set/c_get = Set/Get with those constants. *)
 From Coq Require Import List NArith Arith Bool.
 From Gluon Require Import Model.StoreFrame Proofs.StoreFrameProofs Proofs.StoreToy Proofs.StoreCode Gen.FactsStore.
+From Gluon Require Import Model.LockTable Proofs.LockTableProofs.
 Import ListNotations.
 Local Open Scope nat_scope.
 
@@ -141,6 +142,33 @@ Theorem C09_altered_is_error_refuted :
     read_file key open dec hdr bsz ovh nlen k f' = ROk d' /\ d' <> d.
 Proof. exact altered_file_accepted_witness. Qed.
 Print Assumptions C09_altered_is_error_refuted.
+
+(* ---- concurrent readers and writers of one ID: the per-message lock table (Model/LockTable.v) ----
+   Goroutines run acquire ; Lock/RLock ; wrapped store ; unlock ; release in any interleaving, any number of goroutines,
+   any message IDs, any choice of the pool.  The translator reads from store/write_controlled_store.go whether
+   releaseSyncRef decrements the counter inside the critical section and whether acquireSyncRef resets the counter of an
+   object it inserts; the model runs the protocol these facts describe. *)
+Theorem C09_lock_table_structure : lock_table_structure = true.
+Proof. exact lock_table_structure_ok. Qed.
+Print Assumptions C09_lock_table_structure.
+
+(* for EVERY schedule: two goroutines that are inside the wrapped store on the same message ID are both readers
+   (never a writer together with anybody else) *)
+Theorem C09_lock_table_exclusive : forall n sched,
+  exclusive (run release_decrements_under_lock acquire_resets_counter (init n) sched).
+Proof. exact exclusive_code. Qed.
+Print Assumptions C09_lock_table_exclusive.
+
+(* the release protocol before C09-fix-2 (decrement outside w.lock, re-check inside): a schedule of 4 goroutines puts a
+   writer and a reader of message 7 inside together (and pools one object twice) *)
+Theorem C09_lock_table_exclusive_old_release_refuted : exists n sched, ~ exclusive (run false true (init n) sched).
+Proof. exact old_release_not_exclusive. Qed.
+Print Assumptions C09_lock_table_exclusive_old_release_refuted.
+
+(* without `v.counter = 1` for an object taken from the pool exclusion fails as well *)
+Theorem C09_lock_table_exclusive_without_reset_refuted : exists n sched, ~ exclusive (run true false (init n) sched).
+Proof. exact noreset_not_exclusive. Qed.
+Print Assumptions C09_lock_table_exclusive_without_reset_refuted.
 
 (* non-vacuity: the assumptions are satisfiable *)
 Example C09_assumptions_satisfiable :
